@@ -5,6 +5,7 @@ in pieces, none, invalid).  An independent oracle (own speller, own CIGAR replay
 aligner for the optimal input CIGARs) checks every output record; records with > 60000 read bases must come out
 byte-identical."""
 import hashlib
+import shutil
 
 from rtc import realignlib as L
 
@@ -73,7 +74,7 @@ def long_case(rng, n_read, n_extra_path, reverse, kind):
 
 def run(ctx):
     rng = ctx.rng
-    n_files = 22 if ctx.quick else 400
+    n_files = 500 if ctx.quick else 12000
     per_file = 30
     ctx.bound("%d random rGFAs with sequences (2-5 reference nodes + 0-2 bubbles + optional inversion/self link, node length 1..L with "
               "L in {5,12,30}) x %d records each: walk of <= 4 steps (half of them with a '<' step), any 0 <= pstart < pend <= path length, "
@@ -86,9 +87,9 @@ def run(ctx):
         if ctx.out_of_time(55 if ctx.quick else 700):
             break
     # > 60000 read bases: pass-through; exactly 60000 and 59990: still realigned
-    longs = [(60001, 0, False, "simple"), (60000, 3, True, "simple")]
+    longs = [(60001, 0, False, "simple"), (60000, 3, True, "invalid"), (60002, 1, True, "none")]
     if not ctx.quick:
-        longs += [(60001, 2, True, "none"), (60040, 0, True, "invalid"), (60013, 5, False, "simple"), (59990, 0, False, "simple"),
+        longs += [(60001, 2, False, "none"), (60040, 0, True, "invalid"), (60013, 5, False, "simple"), (59990, 0, False, "simple"),
                   (60000, 0, False, "none")]
     ctx.bound("%d records on a 60 kb node with read slices of %s bases (> 60000: must pass through byte-identical whatever the input CIGAR; "
               "<= 60000: realigned)" % (len(longs), sorted({x[0] for x in longs})))
@@ -105,6 +106,7 @@ def run(ctx):
 def replay(ctx, rec):
     case = rec["case"]
     sub = type(ctx)(ctx.pid, "quick", 0, ctx.dir("replay"))
+    shutil.rmtree(sub.tmp, ignore_errors=True)
     sub.tmp = ctx.tmp
     n = check_file(sub, case, "replay", localise=False)
     return n == 0, (sub.failures[0]["what"] if sub.failures else "every output record is a valid optimal-or-better alignment")
